@@ -410,3 +410,10 @@ M2('c03-wsgi-dispatch-flag-initialised-true', 'C03', 'R2', [
             try:
                 # NOTE(kgriffs): If the request did not match any
 """}], also=('C06', 'C20', 'C02', 'C04', 'C05'))
+
+# ---- preserving wave 2: deque.appendleft is read as head insertion (k2-c03-3 silent); a deque that is APPENDED to is tail insertion
+M2('c03-response-stack-deque-appended', 'C03', 'R3', [
+    {'file': 'falcon/app_helpers.py', 'old': "from inspect import iscoroutinefunction\n", 'new': "from collections import deque\nfrom inspect import iscoroutinefunction\n"},
+    {'file': 'falcon/app_helpers.py', 'old': "    response_mw: Union[List[APResponse], List[PResponse]] = []\n", 'new': "    response_mw = deque()  # type: ignore[var-annotated]\n"},
+    {'file': 'falcon/app_helpers.py', 'old': "                response_mw.insert(0, process_response)  # type: ignore[arg-type]\n",
+     'new': "                response_mw.append(process_response)  # type: ignore[arg-type]\n"}])
